@@ -1,4 +1,4 @@
 From Coq Require Import Extraction ExtrOcamlBasic.
 From PV Require Import Lib.ExtBase C01.FS C01.Model C02.Model.
 Extraction "model.ml" ext_base_z ext_base_n ext_base_nat ext_base_res ext_base_list
-  run_c02 fs_to_list.
+  run_c02 run_c02_plan fs_to_list.
